@@ -37,6 +37,7 @@ import (
 type rCase struct {
 	Kind   string   `json:"kind"` // "R"
 	Check  bool     `json:"check"`
+	Comp   bool     `json:"compiled"` // router.WithRouteCompilation(true)
 	App    bool     `json:"app"`
 	Wrap   bool     `json:"wrap"`   // a timeout middleware with a 1h budget right after recovery
 	Global int      `json:"global"` // how many of the handlers are Use()d; app: how many are WithBefore
@@ -53,7 +54,7 @@ func buildR(c rCase) (*cx.World, error) {
 		ids[i] = b.H
 	}
 	var script []cx.Op
-	bo := cx.BuildOpts{Check: c.Check, Defaults: true}
+	bo := cx.BuildOpts{Check: c.Check, Compiled: c.Comp, Defaults: true}
 	if c.App {
 		// app.New installs recovery itself (default middleware)
 		if c.Global > 0 {
@@ -81,7 +82,7 @@ func buildR(c rCase) (*cx.World, error) {
 }
 
 func emitR(id string, c rCase, st *hx.Stats) string {
-	l := hx.NewLine(id).Tok("R").Bool(c.Check).Bool(c.Wrap).Nat(c.Global)
+	l := hx.NewLine(id).Tok("R").Bool(c.Check).Bool(c.Comp).Bool(c.Wrap).Nat(c.Global)
 	cx.EncBeh(l, c.Chain)
 	in := l.String()
 	l.Sep()
@@ -115,6 +116,9 @@ func emitR(id string, c rCase, st *hx.Stats) string {
 		}
 		if c.Wrap {
 			st.Count("R_timeout_wrapper")
+		}
+		if c.Comp {
+			st.Count("R_route_compilation_on")
 		}
 		if res.Escaped >= 0 {
 			st.Count("R_panic_escaped")
@@ -204,7 +208,7 @@ func panicSite(r *hx.Rand, st *hx.Stats) []cx.Act {
 }
 
 func genR(r *hx.Rand, st *hx.Stats) rCase {
-	c := rCase{Kind: "R", Check: !r.Chance(1, 5), App: r.Chance(2, 5)}
+	c := rCase{Kind: "R", Check: !r.Chance(1, 5), Comp: r.Chance(1, 3), App: r.Chance(2, 5)}
 	if !c.App {
 		c.Wrap = r.Chance(1, 4)
 	}
@@ -475,7 +479,17 @@ func emitT(id string, c tCase, st *hx.Stats) string {
 	return l.String() + hx.Comment(c)
 }
 
-// genT draws a handler program whose event order is fully forced by channels.
+// genT draws a handler program from a grammar whose event order is fully forced by channels:
+//
+//	prog     = W{0..2} ( end | panic | deadline | cancel )
+//	deadline = D aC aE [ W{0..2} sH ]   aT W{0..2} ( end | panic )     the bracket only with waitH
+//	         | D aC aE [ W{0..1} ] panic                               only with waitH
+//	cancel   = X aC aR ( end | W | panic )
+//
+// Every program with a deadline uses the custom timeout handler: after `D aC aE` thread R is provably
+// past its select (inside the timeout handler), and the handler goroutine does not finish before
+// `aT` (or before the timeout handler is blocked on it) — otherwise Go's select could see `done`
+// and `ctx.Done()` ready at once and the outcome would be a coin toss.
 func genT(r *hx.Rand, st *hx.Stats) tCase {
 	c := tCase{Kind: "T", Pre: r.Intn(2)}
 	w := func(n int) []string { // 0..n writes
@@ -487,40 +501,59 @@ func genT(r *hx.Rand, st *hx.Stats) tCase {
 	}
 	pv := func() string { return "P" + strconv.Itoa(r.Intn(5)) }
 	name := ""
-	// Every program with a deadline uses the custom timeout handler: after `D aC aE` thread R is
-	// provably past its select (inside the timeout handler), and the handler does not finish
-	// before `aT` — otherwise Go's select could see `done` and `ctx.Done()` ready at once.
-	switch r.Intn(12) {
-	case 0: // the handler finishes first
-		name, c.Prog = "finishes_first", append(w(2), "W")
+	c.Prog = w(2)
+	if len(c.Prog) > 0 {
+		name = "wrote_first_"
+	}
+	switch k := r.Intn(20); {
+	case k < 3:
+		name += "finishes"
 		c.Custom = r.Chance(1, 2)
-	case 1: // panic before any deadline
-		name, c.Prog = "panic_no_deadline", append(w(1), pv())
-		c.Custom = r.Chance(1, 2)
-	case 2: // honours the context: deadline, timeout response, return without writing
-		name, c.Custom, c.Prog = "honours_ctx", true, []string{"D", "aC", "aE", "aT"}
-	case 3: // ignores the context: writes after the timeout response (K10a)
-		name, c.Custom, c.Prog = "writes_after_timeout_response", true, append([]string{"D", "aC", "aE", "aT", "W"}, w(1)...)
-	case 4: // writes after the deadline but before the timeout response (the timeout handler waits)
-		name, c.Custom, c.WaitH, c.Prog = "writes_between_deadline_and_timeout_response", true, true, []string{"D", "aC", "aE", "W", "sH", "aT"}
-		if r.Chance(1, 2) {
-			c.Prog = append(c.Prog, "W")
+		if len(c.Prog) == 0 {
+			c.Prog = []string{"W"}
 		}
-	case 5: // wrote before the deadline, then overruns
-		name, c.Custom, c.Prog = "wrote_before_deadline", true, append([]string{"W"}, append(w(1), "D", "aC", "aE", "aT")...)
-	case 6: // panics after the timeout response
-		name, c.Custom, c.Prog = "panic_after_timeout_response", true, []string{"D", "aC", "aE", "aT", pv()}
-	case 7: // panics between deadline and timeout response
-		name, c.Custom, c.WaitH, c.Prog = "panic_between", true, true, []string{"D", "aC", "aE", pv()}
-	case 8: // parent context cancelled while the handler is running (K10b)
-		name, c.Prog = "parent_cancel", append(w(1), "X", "aC", "aR")
+	case k < 6:
+		name += "panics"
 		c.Custom = r.Chance(1, 2)
-	case 9: // parent cancel, then the handler writes / panics after ServeHTTP returned
-		name, c.Prog = "parent_cancel_then_more", []string{"X", "aC", "aR", hx.Pick(r, []string{"W", "P0", "P1"})}
-	case 10: // the handler panics after writing, no deadline
-		name, c.Prog = "write_then_panic", []string{"W", pv()}
-	default: // wrote before and after
-		name, c.Custom, c.Prog = "mix", true, append(append(w(1), "D", "aC", "aE", "aT"), w(2)...)
+		c.Prog = append(c.Prog, pv())
+	case k < 15:
+		c.Custom = true
+		c.Prog = append(c.Prog, "D", "aC", "aE")
+		c.WaitH = r.Chance(1, 2)
+		if c.WaitH && r.Chance(1, 4) {
+			name += "deadline_panic_while_timeout_handler_waits"
+			c.Prog = append(append(c.Prog, w(1)...), pv())
+			break
+		}
+		if c.WaitH {
+			mid := w(2)
+			if len(mid) > 0 {
+				name += "deadline_writes_before_timeout_body_"
+			}
+			c.Prog = append(append(c.Prog, mid...), "sH")
+		}
+		c.Prog = append(c.Prog, "aT")
+		post := w(2)
+		c.Prog = append(c.Prog, post...)
+		switch {
+		case r.Chance(1, 4):
+			name += "deadline_then_panic"
+			c.Prog = append(c.Prog, pv())
+		case len(post) > 0:
+			name += "deadline_writes_after_timeout_body"
+		default:
+			name += "deadline_honoured"
+		}
+	default:
+		name += "parent_cancel"
+		c.Custom = r.Chance(1, 2)
+		c.Prog = append(c.Prog, "X", "aC", "aR")
+		switch r.Intn(3) {
+		case 0:
+			c.Prog = append(c.Prog, "W")
+		case 1:
+			c.Prog = append(c.Prog, pv())
+		}
 	}
 	if st != nil {
 		st.Count("T_shape_" + name)
